@@ -113,7 +113,7 @@ class G:
         self.parent = parent
         self.nodes: list = []
         self.inits: list = []
-        self.vals: dict[str, list[str]] = {"F": [], "B": [], "S": [], "I": [], "FS": [], "L": [], "LNZ": [], "D": [], "U": []}
+        self.vals: dict[str, list[str]] = {"F": [], "B": [], "S": [], "I": [], "FS": [], "L": [], "LNZ": [], "D": [], "U": [], "C": []}
 
     def pool(self, ty: str) -> list[str]:
         out = list(self.vals[ty])
@@ -377,7 +377,7 @@ class ModelGen:
 
     def loop_stmt(self, g: G, depth: int, o: str):
         r = self.rng
-        form = r.choice(["for", "for", "while", "while", "forbreak"])
+        form = r.choice(["for", "for", "while", "while", "forbreak", "forcond", "forcond"])
         if self.refusal == "nostop":
             form = "nostop"
             self.refusal = "nostop_done"
@@ -412,7 +412,10 @@ class ModelGen:
             self.node(sg, r.choice(["Neg", "Identity", "Tanh"]), [self.pick(sg, "F")], [so])
             souts.append(so)
         cout = self.namer.new()
-        if form in ("for", "nostop"):
+        cond_passthrough = form == "forcond" and r.random() < 0.6
+        if cond_passthrough:
+            self.flags.add("loop_cond_passthrough")
+        if form in ("for", "nostop") or cond_passthrough:
             self.node(sg, "Identity", [cin], [cout])
         else:
             tot = self.namer.new()
@@ -426,7 +429,7 @@ class ModelGen:
             + [H.make_tensor_value_info(s, TP.FLOAT, [3]) for s in sins],
             [H.make_tensor_value_info(cout, TP.BOOL, [])] + [H.make_tensor_value_info(s, TP.FLOAT, [3]) for s in souts],
         )
-        if form in ("for", "forbreak"):
+        if form in ("for", "forbreak", "forcond"):
             if r.random() < 0.5 and g.pool("I"):
                 trip = self.pick(g, "I")
             else:
@@ -434,8 +437,11 @@ class ModelGen:
                 self.flags.add("trip_const")
         else:
             trip = ""
-        if form == "while" or (form == "forbreak" and r.random() < 0.5):
-            cond = self.bool_scalar(g)
+        if form == "forcond":
+            # trip count AND an initial condition that is a run-time value (graph input when there is one)
+            cond = self.pick(g, "C") if g.pool("C") and r.random() < 0.7 else self.bool_scalar(g)
+        elif form == "while" or (form == "forbreak" and r.random() < 0.5):
+            cond = self.pick(g, "C") if g.pool("C") and r.random() < 0.3 else self.bool_scalar(g)
         else:
             cond = ""
         outs = [o] + [self.namer.new() for _ in range(nstate - 1)]
@@ -457,6 +463,11 @@ class ModelGen:
             n = self.namer.new()
             g.add("I", n)
             inputs.append(H.make_tensor_value_info(n, TP.INT64, []))
+        if r.random() < 0.4 and self.allow_loops:
+            n = self.namer.new()
+            g.add("C", n)
+            g.add("S", n)
+            inputs.append(H.make_tensor_value_info(n, TP.BOOL, []))
         if r.random() < 0.5:
             for _ in range(r.choice([1, 2])):
                 n = self.namer.new()
@@ -565,14 +576,49 @@ def feeds_for(model: onnx.ModelProto, rng, k: int = 3):
     for j in range(k):
         f = {}
         for i in model.graph.input:
-            if i.type.tensor_type.elem_type == TP.FLOAT:
-                f[i.name] = np.array([rng.choice([-2.0, -1.0, 0.0, 0.5, 1.0, 2.0, 3.0]) for _ in range(3)], dtype=np.float32)
-            elif len(i.type.tensor_type.shape.dim) == 1:
-                f[i.name] = np.array([rng.choice([-7, -5, -3, -2, -1, 1, 2, 3, 5, 7]) for _ in range(3)], dtype=np.int64)
+            tt = i.type.tensor_type
+            shape = [d.dim_value if d.HasField("dim_value") else 2 for d in tt.shape.dim] if tt.HasField("shape") else [2]
+            n = 1
+            for q in shape:
+                n *= q
+            if tt.elem_type == TP.FLOAT:
+                vals = [rng.choice([-2.0, -1.0, 0.0, 0.5, 1.0, 2.0, 3.0]) for _ in range(n)]
+                f[i.name] = np.array(vals, dtype=np.float32).reshape(shape)
+            elif tt.elem_type == TP.BOOL:
+                # both truth values are fed: a run-time condition must matter
+                f[i.name] = np.array([(j % 2 == 0) if rng.random() < 0.8 else rng.random() < 0.5 for _ in range(n)], dtype=np.bool_).reshape(shape)
+            elif len(shape) == 1:
+                f[i.name] = np.array([rng.choice([-7, -5, -3, -2, -1, 1, 2, 3, 5, 7]) for _ in range(n)], dtype=np.int64)
             else:
                 f[i.name] = np.array(rng.choice([0, 1, 2, 3]), dtype=np.int64)
         out.append(f)
     return out
+
+
+SHAPES = [[0], [0, 3], [2, 0], [], [1], [2, 3], ["N"], ["N", 3], [None], [2, None], None, [0, 0], ["N", 0]]
+
+
+def shape_model(rng, idx: int) -> onnx.ModelProto:
+    """Element-wise model whose graph inputs/outputs carry every kind of shape annotation (size-0 dims, rank 0,
+    symbolic and unknown dims, unknown rank)."""
+    nin = rng.choice([1, 2])
+    nodes, inputs, outputs = [], [], []
+    for k in range(nin):
+        shp = rng.choice(SHAPES) if rng.random() < 0.8 else [rng.choice([0, 1, 2, "M", None]) for _ in range(rng.choice([1, 2, 3]))]
+        vi = H.make_tensor_value_info(f"x{k}", TP.FLOAT, shp)
+        inputs.append(vi)
+        cur = f"x{k}"
+        for j in range(rng.choice([1, 2])):
+            o = f"t{k}_{j}"
+            nodes.append(H.make_node(rng.choice(["Relu", "Neg", "Abs", "Identity", "Tanh"]), [cur], [o]))
+            cur = o
+        if rng.random() < 0.4:
+            o = f"s{k}"
+            nodes.append(H.make_node("Add", [cur, f"x{k}"], [o]))
+            cur = o
+        outputs.append(H.make_tensor_value_info(cur, TP.FLOAT, shp))
+    g = H.make_graph(nodes, f"shapes{idx}", inputs, outputs)
+    return H.make_model(g, opset_imports=[H.make_opsetid("", OPSET)], ir_version=8)
 
 
 # --------------------------------------------------------------------------- @script templates
